@@ -1,6 +1,7 @@
 SPECIFICATION FairSpec
 CONSTANTS
   MaxDocs = 4
+  LongMax = 7
   Export = TRUE
 INVARIANT Inv_AcceptStaged
 INVARIANT Inv_ReadersExcludeCreate
